@@ -1077,6 +1077,16 @@ static void Rewrites(vh::Ctx& c) {
     default: {  // a huge += chain of far-apart leaves, and destruction of deep trees that were never evaluated
       d.family = "rewrite:deep-union-chain";
       int n = (int)c.iparam("chainN", 3000) + r.range(0, 100);
+      if (r.chance(0.25)) {
+        // a long-lived process: the global mesh-ID counter is already in the millions (every mesh
+        // ever created advances it; ReserveIDs moves it directly). Compose() of ~1000 nodes then
+        // computes its per-node ID offsets beyond INT_MAX. Done only in this family, where a big
+        // Compose is certain, so that the behaviour of a case never depends on the cases before it.
+        uint32_t cur = Manifold::ReserveIDs(0);
+        if (cur < 3000000u) Manifold::ReserveIDs(3000000u - cur);
+        d.family = "rewrite:deep-union-chain+reserved-ids";
+        c.count("cases_with_3e6_reserved_mesh_ids");
+      }
       std::vector<int> ks;
       std::vector<Leaf> protos;
       for (int i = 0; i < 6; i++) protos.push_back(MakeLeaf(r, 0.05, true, 0.3));
